@@ -62,6 +62,8 @@ def gen_cases(tier, seed):
                     ("links", 40)):
         for _ in range(n * mult):
             cases.append({"kind": kind, "seed": rnd.randrange(2 ** 32)})
+    for _ in range(4 * mult):
+        cases.append({"kind": "layout", "seed": rnd.randrange(2 ** 32), "large": True})
     return cases
 
 
@@ -74,10 +76,15 @@ def run_layout(case):
     g = np.random.default_rng(case["seed"])
     n = rnd.choice([0, 1, 3, 4, 10, 50])
     m = rnd.choice([0, 1, 5, 30]) if n > 0 else 0
+    if case.get("large"):
+        n, m = rnd.choice([65535, 65536, 65537, 70000]), 300
     V = (g.normal(size=(n, 3)) * 10 ** g.uniform(-2, 6)).astype(
         rnd.choice([np.float32, np.float64]))
     T = g.integers(0, max(n, 1), size=(m, 3)).astype(
-        rnd.choice([np.uint32, np.uint16, np.uint8]))
+        rnd.choice([np.uint32, np.uint16, np.uint8]) if n < 256 else
+        rnd.choice([np.uint32, np.int64, np.int32][:1 if n >= 2 ** 31 else 3]))
+    if T.dtype != np.uint32 and n >= 256:
+        T = T.astype(np.uint32)
     if n and m:
         T[0] = [n - 1, 0, n - 1]
     lay = rnd.choice(["C", "F", "T", "view"])
@@ -92,7 +99,8 @@ def run_layout(case):
         big[:, ::2] = V
         Vw = big[:, ::2]
     obs = {"meshes_written": 0, "reader_inputs": 0, "reader_rejected": 0,
-           "reader_accepted": 0, "noncontiguous": int(not Vw.flags["C_CONTIGUOUS"])}
+           "reader_accepted": 0, "noncontiguous": int(not Vw.flags["C_CONTIGUOUS"]),
+           "meshes_beyond_65535_vertices": int(n > 65535)}
     v = []
     ctx = f"n={n} m={m} vdtype={V.dtype} tdtype={T.dtype} layout={lay}"
     b = io.BytesIO()
@@ -523,4 +531,5 @@ def gates(obs, tier):
         "triangles_checked": obs.get("triangles_checked", 0) > 1000,
         "gifti_with_transform": obs.get("with_transform", 0) > 5,
         "link_files_checked": obs.get("link_files_checked", 0) > 50,
+        "meshes_with_more_than_65535_vertices": obs.get("meshes_beyond_65535_vertices", 0) > 0,
     }
